@@ -43,7 +43,7 @@
                    deletes are EDel events), the response is sent.
    ResetCids goroutine (701-836), phases A, B, C
      EKey          one cid received from keysChan (appended to the local batch)
-     EAltWrite c   one committed batch in altDs: altPutBlind before phase B,
+     EAltWrite b c one committed batch in altDs: altPutBlind before phase B,
                    altPutChecked (Has, altSize += added) after it.  [c] is the
                    chunk handed to altPut*: the local batch [r_loc], or the next
                    keys of those taken from the buffer [r_drn] (after a takeBuf if
@@ -148,7 +148,7 @@ Inductive revent :=
 | EPutBegin (ks : list mhk) | EPutCommit | EPutSync
 | EClose | ECloseSync
 | EStart (new : list mhk) | EDel (c : list skey) | EStartDone | EStartFail | EStartCancel
-| EKey | EAltWrite (c : list mhk) | EAltSync | ECount
+| EKey | EAltWrite (batch : bool) (c : list mhk) | EAltSync | ECount
 | ECleanup | ECleanSync | EFlip | EFlipFail | EMarkSync
 | EAbort | EAbortClean | ETearSync | EFinish.
 
@@ -279,13 +279,13 @@ Definition rstep (pb : nat) (s : rst) (e : revent) : option rst :=
                   r_flipped := r_flipped s |}
       | _, _ => None
       end
-  | EAltWrite c =>
+  | EAltWrite fromb c =>
       match r_ph s with
       | PFilling | PClean0 =>
-          (* which keys are these?  the local batch (altPutBlind(batch), 795/806), or the
-             next chunk of the keys taken from the buffer (drainBuf); if neither, a
-             takeBuf must have happened first *)
-          let sel := if list_mhk_eqb c (r_loc s) then Some ([], r_drn s, r_buf s)
+          (* [fromb]: altPutBlind(batch) of the local batch (795/806); otherwise the next
+             chunk of the keys taken from the buffer (drainBuf), after a takeBuf if
+             they are not there yet *)
+          let sel := if fromb then (if list_mhk_eqb c (r_loc s) then Some ([], r_drn s, r_buf s) else None)
                      else match strip_prefix c (r_drn s) with
                           | Some d => Some (r_loc s, d, r_buf s)
                           | None => match strip_prefix c (r_drn s ++ r_buf s) with
